@@ -61,7 +61,22 @@ func c11Pes(r *rand.Rand, sid int, ptsdts int, extra int, dataLen int, pts, dts 
 	}
 	d := make([]byte, dataLen)
 	r.Read(d)
-	return append(b, d...)
+	b = append(b, d...)
+	// PES_packet_length: any value (drawn above), the number of bytes that actually follow it, one next to that, or a small
+	// value (what a decoder must not do is bound its parsing of the header by it wrongly)
+	switch r.Intn(4) {
+	case 1:
+		plen = len(b) - 6
+	case 2:
+		plen = r.Intn(41)
+	case 3:
+		plen = len(b) - 6 + []int{-5, -1, 1, 6}[r.Intn(4)]
+	}
+	if plen < 0 || plen > 65535 {
+		plen = 0
+	}
+	b[4], b[5] = byte(plen>>8), byte(plen)
+	return b
 }
 
 // gotsInsertPTS: harness-side timestamp writer (independent of the library's InsertPTS).
